@@ -123,6 +123,7 @@ def encMapping (m : Mapping) : Json :=
 
 /-- one history on live contexts: `{"defs":[fd…], "steps":[{"k":"root"} | {"k":"child","i":n} |
     {"k":"reg","i":n,"name":s,"fid":n,"x":b} | {"k":"del","i":n,"name":s,"fid":n} |
+    {"k":"multi","ms":[n…]} | {"k":"linked","p":n|null,"t":n} |
     {"k":"call","i":n,"name":s,"call":{…}}]}` -> the outcome of every call step, made in the state
     of its moment (`Yaql.ResolveCtx.run` / `resolveIn`) -/
 def runHist (L : Lattice) (h : Json) : Json :=
@@ -136,6 +137,8 @@ def runHist (L : Lattice) (h : Json) : Json :=
     | "reg" => (Yaql.ResolveCtx.step st
                   (.register (jnat stp "i") (nm (jstr stp "name")) (jnat stp "fid") (jbool stp "x")), outs)
     | "del" => (Yaql.ResolveCtx.step st (.delete (jnat stp "i") (nm (jstr stp "name")) (jnat stp "fid")), outs)
+    | "multi" => (Yaql.ResolveCtx.step st (.multi ((jarr stp "ms").map asNat)), outs)
+    | "linked" => (Yaql.ResolveCtx.step st (.linked (jnatOpt stp "p") (jnat stp "t")), outs)
     | "call" =>
         (st, encOutcome (Yaql.ResolveCtx.resolveIn L defs st (jnat stp "i") (nm (jstr stp "name"))
                            (decCall (jget stp "call"))) :: outs)
